@@ -16,7 +16,6 @@ type Svc = local::Service;
 
 const BUFFER: usize = 3;
 const MAX_BORROW: usize = 3;
-const LENS: [usize; 4] = [1, 2, 5, 9];
 
 #[derive(Clone, Copy, Debug, Serialize, Deserialize, PartialEq, Eq)]
 pub enum Strategy {
@@ -30,6 +29,8 @@ pub struct PCfg {
     strategy: Strategy,
     /// element type of the slice payload: 1 = u8, 8 = u64
     elem: u8,
+    /// slice lengths that are loaned (initial_max_slice_len is 1)
+    lens: Vec<usize>,
 }
 
 #[derive(Clone, Debug, Serialize, Deserialize)]
@@ -42,15 +43,24 @@ pub enum POp {
 
 pub trait Elem: core::fmt::Debug + Default + Copy + PartialEq + ZeroCopySend + 'static {
     fn canary(id: u64, i: usize) -> Self;
+    /// values read back may be arbitrary garbage: printed as 0x.. so that the replay comparison of
+    /// the engine (which masks hexadecimal numbers) stays deterministic
+    fn hex(&self) -> String;
 }
 impl Elem for u8 {
     fn canary(id: u64, i: usize) -> u8 {
         (id as u8).wrapping_mul(37).wrapping_add(i as u8).wrapping_add(1)
     }
+    fn hex(&self) -> String {
+        format!("{:#x}", self)
+    }
 }
 impl Elem for u64 {
     fn canary(id: u64, i: usize) -> u64 {
         0xA5A5_0000_0000_0000 ^ (id << 16) ^ i as u64
+    }
+    fn hex(&self) -> String {
+        format!("{:#x}", self)
     }
 }
 
@@ -132,18 +142,19 @@ pub fn configs(tier: Tier) -> Vec<(PCfg, Plan)> {
                 continue;
             }
             let plan = if quick {
-                Plan { tree_depth: if dynamic { 4 } else { 5 }, finish_prefixes: false, frontier: None, split: if dynamic { 5 } else { 1 } }
+                Plan { tree_depth: if dynamic { 4 } else { 5 }, finish_prefixes: false, frontier: None, split: if dynamic { 4 } else { 1 } }
             } else {
                 Plan { tree_depth: if dynamic { 5 } else { 6 }, finish_prefixes: false, frontier: if dynamic { Some((250, 8)) } else { None }, split: if dynamic { 5 } else { 2 } }
             };
-            v.push((PCfg { strategy, elem }, plan));
+            let lens = if quick && dynamic { vec![1, 5, 9] } else { vec![1, 2, 5, 9] };
+            v.push((PCfg { strategy, elem, lens }, plan));
         }
     }
     v
 }
 
 pub fn enabled(s: &PSys) -> Vec<POp> {
-    let mut v: Vec<POp> = LENS.iter().map(|l| POp::Send(*l)).collect();
+    let mut v: Vec<POp> = s.cfg.lens.iter().map(|l| POp::Send(*l)).collect();
     if s.held.len() < MAX_BORROW {
         v.push(POp::Receive);
     }
@@ -169,9 +180,9 @@ fn check_held<T: Elem>(p: &Port<T>, model: &[(u64, usize)], after: &str) -> Resu
                 *v == T::canary(*id, i),
                 "held-sample-changed",
                 format!("held sample after {after}"),
-                "held sample #{k} (send {id}, len {len}) reads {:?} at index {i}, written was {:?}",
-                v,
-                T::canary(*id, i)
+                "held sample #{k} (send {id}, len {len}) reads {} at index {i}, written was {}",
+                v.hex(),
+                T::canary(*id, i).hex()
             );
         }
     }
